@@ -33,11 +33,14 @@ pub const TARGET: &str = "codecs_scale";
 
 /// Stack of the thread a case runs on (deeply nested `Any` values: encode,
 /// decode, compare, drop are all recursive).
-const STACK: usize = 512 << 20;
+const STACK: usize = 64 << 20;
 
 const MAX_CLIENT: u64 = (1 << 53) - 1;
 /// First client id of the documents that receive updates.
 const RECEIVER: u64 = 9_000_001;
+/// The merged form of an update is applied to a receiver of its own up to this size (bytes);
+/// above, it is only decoded and compared with the v2 merge.
+const MERGE_RECEIVER_LIMIT: usize = 64 << 10;
 
 fn cid(c: u64) -> ClientID {
     ClientID::new(c)
@@ -549,6 +552,23 @@ struct Pipe<'a> {
     want: Option<&'a Facts>,
     /// The state vector the update must report, if known.
     want_sv: Option<&'a Vec<(u64, u32)>>,
+    /// The update holds an `Any` map of several keys (written in `HashMap` order, which differs
+    /// from instance to instance): encodings are compared up to the order of their bytes.
+    unordered: bool,
+}
+
+/// Equal, or (`unordered`) the same bytes in another order.
+fn same(a: &[u8], b: &[u8], unordered: bool) -> bool {
+    if a == b {
+        return true;
+    }
+    if !unordered || a.len() != b.len() {
+        return false;
+    }
+    let (mut x, mut y) = (a.to_vec(), b.to_vec());
+    x.sort_unstable();
+    y.sort_unstable();
+    x == y
 }
 
 fn dec1(b: &[u8], what: &str) -> Result<Update, Failure> {
@@ -593,7 +613,7 @@ fn check_pipe(p: &Pipe) -> Result<(Doc, Doc), Failure> {
     let e1 = u1.encode_v1();
     at("Update::encode_v1 of Update::decode_v2(v2 bytes)");
     let e21 = u2.encode_v1();
-    if e1 != e21 || u1 != u2 {
+    if !same(&e1, &e21, p.unordered) || u1 != u2 {
         let (x, y) = diff_bytes(&e1, &e21);
         return Err(bad(
             "round trip mismatch: the v2 encoding decodes to a different update than the v1 encoding",
@@ -604,7 +624,7 @@ fn check_pipe(p: &Pipe) -> Result<(Doc, Doc), Failure> {
     let w = dec1(&e1, "Update::encode_v1(u)")?;
     at("Update::encode_v1 of Update::decode_v1(Update::encode_v1(u))");
     let again = w.encode_v1();
-    if again != e1 || w != u1 {
+    if !same(&again, &e1, p.unordered) || w != u1 {
         let (x, y) = diff_bytes(&e1, &again);
         return Err(bad(MISMATCH, x, y));
     }
@@ -615,7 +635,7 @@ fn check_pipe(p: &Pipe) -> Result<(Doc, Doc), Failure> {
     let w2 = dec2(&e2, "Update::encode_v2(Update::decode_v1(v1 bytes))")?;
     at("Update::encode_v1 of Update::decode_v2(Update::encode_v2(Update::decode_v1(v1 bytes)))");
     let back = w2.encode_v1();
-    if back != e1 || w2 != u1 {
+    if !same(&back, &e1, p.unordered) || w2 != u1 {
         let (x, y) = diff_bytes(&e1, &back);
         return Err(bad(
             "round trip mismatch: v1 -> v2 -> v1 re-encoding",
@@ -625,7 +645,7 @@ fn check_pipe(p: &Pipe) -> Result<(Doc, Doc), Failure> {
     }
     at("Update::encode_v2 of Update::decode_v2(v2 bytes)");
     let e22 = u2.encode_v2();
-    if e22 != e2 {
+    if !same(&e22, &e2, p.unordered) {
         let (x, y) = diff_bytes(&e2, &e22);
         return Err(bad("round trip mismatch: equal updates encode differently in v2", x, y));
     }
@@ -656,7 +676,7 @@ fn check_pipe(p: &Pipe) -> Result<(Doc, Doc), Failure> {
     let um2 = dec2(&m2, "yrs::merge_updates_v2(&[v2 bytes])")?;
     at("Update::encode_v1 of the merged updates");
     let (me1, me2) = (um1.encode_v1(), um2.encode_v1());
-    if me1 != me2 {
+    if !same(&me1, &me2, p.unordered) {
         let (x, y) = diff_bytes(&me1, &me2);
         return Err(bad("round trip mismatch: merge_updates_v1 and merge_updates_v2 disagree", x, y));
     }
@@ -664,14 +684,16 @@ fn check_pipe(p: &Pipe) -> Result<(Doc, Doc), Failure> {
     // receivers
     let (fa, sa, da) = receive(p, u1, 0, "the v1 bytes")?;
     let (fb, sb, db) = receive(p, u2, 1, "the v2 bytes")?;
-    let (fc, sc, _dc) = receive(p, w2, 2, "the v2 re-encoding of the v1 bytes")?;
-    let (fm, sm, _dm) = receive(p, um1, 3, "merge_updates_v1(&[v1 bytes])")?;
+    let mut others = vec![("the v2 form", fb, sb)];
+    if p.v1.len() <= MERGE_RECEIVER_LIMIT {
+        // (both are byte-for-byte the update of the v1 form by now: small updates only)
+        let (fc, sc, _dc) = receive(p, w2, 2, "the v2 re-encoding of the v1 bytes")?;
+        others.push(("the v2 re-encoding of the v1 form", fc, sc));
+        let (fm, sm, _dm) = receive(p, um1, 3, "merge_updates_v1(&[v1 bytes])")?;
+        others.push(("the merged v1 form", fm, sm));
+    }
     at("documents that applied the v1 form / the v2 form of the update");
-    for (what, f, s) in [
-        ("the v2 form", &fb, &sb),
-        ("the v2 re-encoding of the v1 form", &fc, &sc),
-        ("the merged v1 form", &fm, &sm),
-    ] {
+    for (what, f, s) in others.iter() {
         if let Some((field, x, y)) = facts_differ(&fa, f) {
             return Err(bad(
                 &format!("round trip mismatch: the receiver of {} differs from the receiver of the v1 form ({})", what, field),
@@ -679,7 +701,7 @@ fn check_pipe(p: &Pipe) -> Result<(Doc, Doc), Failure> {
                 y,
             ));
         }
-        if *s != sa {
+        if !same(s, &sa, p.unordered) {
             let (x, y) = diff_bytes(&sa, s);
             return Err(bad(
                 &format!("round trip mismatch: the receiver of {} encodes another state than the receiver of the v1 form", what),
@@ -712,6 +734,8 @@ struct Built {
     /// The update is taken against this state; a receiver applies `pre` first.
     base: StateVector,
     pre: Vec<Vec<u8>>,
+    /// See `Pipe::unordered`.
+    unordered: bool,
 }
 
 impl Built {
@@ -724,6 +748,7 @@ impl Built {
             stickies: Vec::new(),
             base: StateVector::default(),
             pre: Vec::new(),
+            unordered: false,
         }
     }
 }
@@ -779,6 +804,7 @@ fn check_built(b: &Built) -> Result<(), Failure> {
         post: &[],
         want: Some(&src),
         want_sv: if full { Some(&src.sv) } else { None },
+        unordered: b.unordered,
     })?;
     round_trip("Snapshot", &snap, &show_snapshot)?;
     round_trip("StateVector", &snap.state_map, &show_sv)?;
@@ -882,8 +908,8 @@ fn num(i: u64) -> Any {
 // document scenarios
 // ---------------------------------------------------------------------------
 
-/// `n` map entries with distinct keys in one transaction, then a text insert
-/// (a block with another info byte closes the run).
+/// A nested map, `n` entries of the root map with distinct keys, one entry of the nested map,
+/// a text insert, all in one transaction (the last two close the parent-info and the info run).
 fn s_map_keys(n: u64, opt: &str) -> Built {
     build();
     let gc = opt == "gc";
@@ -894,13 +920,17 @@ fn s_map_keys(n: u64, opt: &str) -> Built {
     let t = d.get_or_insert_text("t");
     {
         let mut txn = d.transact_mut();
+        let inner = m.insert(&mut txn, "inner!", MapPrelim::default());
         for i in 0..n {
             let key = if eq { format!("k{:05}", i) } else { format!("k{}", i) };
             m.insert(&mut txn, key, num(i));
         }
+        // same info byte as the entries, but its parent is named by id: closes the parent-info run
+        inner.insert(&mut txn, "z", num(1));
+        // another info byte: closes the info run
         t.insert(&mut txn, 0, "hello");
     }
-    let mut b = Built::new(d, gc, roots(&[(name, Kind::Map), ("t", Kind::Text)]), vec![n as u32, 5]);
+    let mut b = Built::new(d, gc, roots(&[(name, Kind::Map), ("t", Kind::Text)]), vec![n as u32 + 1, 5]);
     b.stickies = end_stickies(1, 5);
     b
 }
@@ -1054,6 +1084,31 @@ fn s_text_desc(n: u64, opt: &str) -> Built {
     out
 }
 
+/// Client 1 writes `n + 1` map entries, client 2 overwrites them from the last to the first in
+/// ONE transaction: `n + 1` blocks whose only origin descends by one (no long block is cut).
+fn s_map_desc(n: u64, _opt: &str) -> Built {
+    build();
+    let a = new_doc(1, false);
+    let ma = a.get_or_insert_map("m");
+    {
+        let mut txn = a.transact_mut();
+        for i in 0..=n {
+            ma.insert(&mut txn, format!("k{}", i), num(i));
+        }
+    }
+    let base = a.transact().encode_state_as_update_v1(&StateVector::default());
+    let b = new_doc(2, false);
+    let mb = b.get_or_insert_map("m");
+    tool(b.transact_mut().apply_update(tool(Update::decode_v1(&base), "decoding")), "applying");
+    {
+        let mut txn = b.transact_mut();
+        for i in (0..=n).rev() {
+            mb.insert(&mut txn, format!("k{}", i), num(i + 1000));
+        }
+    }
+    Built::new(b, false, roots(&[("m", Kind::Map)]), vec![n as u32 + 1])
+}
+
 /// Like `s_text_desc` with 4 insertions `n` positions apart (`asc`/`desc`): the magnitude of the step.
 fn s_text_steps(n: u64, opt: &str) -> Built {
     build();
@@ -1179,11 +1234,29 @@ fn s_formats(n: u64, opt: &str) -> Built {
     Built::new(d, false, roots(&[("t", Kind::Text)]), vec![2])
 }
 
-/// A text of `2n` characters, every other one removed (back to front): `n` deleted ranges.
+/// `n` deleted ranges of one client. `keep` / `gc`: `2n` map entries, every other one removed;
+/// `text`: a text of `2n` characters, every other one removed (back to front; cutting a long
+/// block again and again is quadratic, so small sizes only).
 fn s_delete_ranges(n: u64, opt: &str) -> Built {
     build();
     let gc = opt == "gc";
     let d = new_doc(1, gc);
+    if opt != "text" {
+        let m = d.get_or_insert_map("m");
+        {
+            let mut txn = d.transact_mut();
+            for i in 0..2 * n {
+                m.insert(&mut txn, format!("k{}", i), num(i));
+            }
+        }
+        {
+            let mut txn = d.transact_mut();
+            for i in 0..n {
+                m.remove(&mut txn, &format!("k{}", 2 * i + 1));
+            }
+        }
+        return Built::new(d, gc, roots(&[("m", Kind::Map)]), vec![n as u32]);
+    }
     let t = d.get_or_insert_text("t");
     t.insert(&mut d.transact_mut(), 0, &units(2 * n, "ascii"));
     {
@@ -1215,7 +1288,8 @@ fn s_delete_big(n: u64, opt: &str) -> Built {
             let m = d.get_or_insert_map("m");
             {
                 let mut txn = d.transact_mut();
-                m.insert(&mut txn, "arr", (0..n).map(|i| i as f64).collect::<ArrayPrelim>());
+                let arr = m.insert(&mut txn, "arr", ArrayPrelim::default());
+                arr.insert_range(&mut txn, 0, (0..n).map(num));
                 m.insert(&mut txn, "z", num(1));
             }
             m.remove(&mut d.transact_mut(), "arr");
@@ -1349,5 +1423,1040 @@ fn s_doc_any(n: u64, opt: &str) -> Built {
     } else {
         m.insert(&mut d.transact_mut(), "v", any_of(n, opt));
     }
-    Built::new(d, false, roots(&[("m", Kind::Map)]), vec![1])
+    let mut b = Built::new(d, false, roots(&[("m", Kind::Map)]), vec![1]);
+    b.unordered = opt == "map";
+    b
+}
+
+// ---------------------------------------------------------------------------
+// updates that no document writes: Skip blocks (merge of non-adjacent updates)
+// and clocks the API cannot reach (hand-written v1 bytes)
+// ---------------------------------------------------------------------------
+
+/// Three transactions append "ab", `n` units, "yz"; the first and the third update merged
+/// carry a Skip of length `n`. A receiver applies the merged update, then the second one.
+fn run_skip(n: u64, _opt: &str) -> Result<(), Failure> {
+    build();
+    let d = new_doc(1, false);
+    let t = d.get_or_insert_text("t");
+    let mut ups1: Vec<Vec<u8>> = Vec::new();
+    let mut ups2: Vec<Vec<u8>> = Vec::new();
+    for chunk in ["ab".to_string(), units(n, "ascii"), "yz".to_string()] {
+        let mut txn = d.transact_mut();
+        t.push(&mut txn, &chunk);
+        ups1.push(txn.encode_update_v1());
+        ups2.push(txn.encode_update_v2());
+    }
+    let rs = roots(&[("t", Kind::Text)]);
+    let src = facts(&d, &rs);
+    at("yrs::merge_updates_v1 of two non-adjacent updates");
+    let m1 = yrs::merge_updates_v1(&[&ups1[0], &ups1[2]]).map_err(|e| bad(MISMATCH, "Ok", format!("Err({})", e)))?;
+    at("yrs::merge_updates_v2 of two non-adjacent updates");
+    let m2 = yrs::merge_updates_v2(&[&ups2[0], &ups2[2]]).map_err(|e| bad(MISMATCH, "Ok", format!("Err({})", e)))?;
+    let want_sv = vec![(1u64, 2u32)];
+    check_pipe(&Pipe {
+        v1: &m1,
+        v2: &m2,
+        roots: &rs,
+        gc: false,
+        pre: &[],
+        post: &[ups1[1].clone()],
+        want: Some(&src),
+        want_sv: Some(&want_sv),
+        unordered: false,
+    })?;
+    Ok(())
+}
+
+struct W(Vec<u8>);
+
+impl W {
+    fn u(&mut self, v: u64) -> &mut Self {
+        var_uint(v, &mut self.0);
+        self
+    }
+    fn b(&mut self, v: u8) -> &mut Self {
+        self.0.push(v);
+        self
+    }
+    fn s(&mut self, s: &str) -> &mut Self {
+        var_uint(s.len() as u64, &mut self.0);
+        self.0.extend_from_slice(s.as_bytes());
+        self
+    }
+    /// A string item without origins in the root text "t".
+    fn root_str(&mut self, s: &str) -> &mut Self {
+        self.b(0x04).u(1).s("t").s(s)
+    }
+}
+
+const INFO_GC: u8 = 0;
+const INFO_SKIP: u8 = 10;
+const INFO_STR: u8 = 4;
+const HAS_ORIGIN: u8 = 0x80;
+const HAS_RIGHT_ORIGIN: u8 = 0x40;
+
+/// Hand-written v1 updates around clock `n`. The v2 form is `decode_v1(v1).encode_v2()`.
+fn run_raw_clock(n: u64, opt: &str) -> Result<(), Failure> {
+    at("writing the v1 bytes of an update by hand");
+    let mut w = W(Vec::new());
+    let want_text: Option<&str>;
+    let want_sv: Vec<(u64, u32)>;
+    match opt {
+        // client 5: GC of length n from clock 0, then "ab" at clock n
+        "gc_item" => {
+            w.u(1).u(2).u(5).u(0);
+            w.b(INFO_GC).u(n).root_str("ab");
+            w.u(0);
+            want_text = Some("ab");
+            want_sv = vec![(5, (n + 2) as u32)];
+        }
+        // client 5: "a", a Skip of length n, "b" (origin "a") at clock n + 1
+        "skip_item" => {
+            w.u(1).u(3).u(5).u(0);
+            w.root_str("a").b(INFO_SKIP).u(n);
+            w.b(INFO_STR | HAS_ORIGIN).u(5).u(0).s("b");
+            w.u(0);
+            // (whether "b" shows before the hole is filled is up to the integration: not predicted)
+            want_text = None;
+            want_sv = vec![(5, 1)];
+        }
+        // client 6: GC of length n, "a" at clock n; client 5: "b" whose LEFT origin is (6, n)
+        "left_origin" | "right_origin" => {
+            w.u(2);
+            w.u(2).u(6).u(0).b(INFO_GC).u(n).root_str("a");
+            w.u(1).u(5).u(0);
+            let flag = if opt == "left_origin" { HAS_ORIGIN } else { HAS_RIGHT_ORIGIN };
+            w.b(INFO_STR | flag).u(6).u(n).s("b");
+            w.u(0);
+            want_text = Some(if opt == "left_origin" { "ab" } else { "ba" });
+            want_sv = vec![(5, 1), (6, (n + 1) as u32)];
+        }
+        // the section of client 5 starts at clock n (nothing before it: it stays pending)
+        "start_clock" => {
+            w.u(1).u(1).u(5).u(n).root_str("ab");
+            w.u(0);
+            want_text = None;
+            want_sv = vec![];
+        }
+        // delete set: client 7 (unknown to the receivers) ranges [0, n) and [n + 1, n + 2)
+        _ => {
+            w.u(1).u(1).u(5).u(0).root_str("ab");
+            w.u(2);
+            w.u(5).u(1).u(0).u(1);
+            w.u(7).u(2).u(0).u(n).u(n + 1).u(1);
+            want_text = Some("b");
+            want_sv = vec![(5, 2)];
+        }
+    }
+    let v1 = w.0;
+    let u = dec1(&v1, "the hand-written v1 bytes")?;
+    at("Update::encode_v2 of Update::decode_v1(hand-written v1 bytes)");
+    let v2 = u.encode_v2();
+    drop(u);
+    let rs = roots(&[("t", Kind::Text)]);
+    let (da, _db) = check_pipe(&Pipe {
+        v1: &v1,
+        v2: &v2,
+        roots: &rs,
+        gc: true,
+        pre: &[],
+        post: &[],
+        want: None,
+        want_sv: Some(&want_sv),
+        unordered: false,
+    })?;
+    if let Some(want) = want_text {
+        let f = facts(&da, &rs);
+        if let RootVal::Text(s, _) = &f.roots[0].1 {
+            if s != want {
+                at("GetString::get_string of a document that applied the hand-written update");
+                return Err(bad(BUILT, format!("{:?}", want), format!("{:?}", brief(s))));
+            }
+        }
+    }
+    Ok(())
+}
+
+// ---------------------------------------------------------------------------
+// value scenarios
+// ---------------------------------------------------------------------------
+
+const CLOCKS: [u32; 8] = [0, 1, 127, 128, 16383, 16384, 1 << 21, u32::MAX];
+
+fn sv_of(n: u64, opt: &str) -> StateVector {
+    match opt {
+        "clock" => [(cid(1), n as u32)].into_iter().collect(),
+        "client_id" => [(cid(n), 7u32)].into_iter().collect(),
+        _ => (0..n).map(|i| (cid(i + 1), CLOCKS[(i % 8) as usize])).collect(),
+    }
+}
+
+fn set_of(n: u64, opt: &str) -> IdSet {
+    let mut s = IdSet::new();
+    match opt {
+        "clients" => {
+            for i in 0..n {
+                s.insert(ID::new(cid(i + 1), (i % 300) as u32), 1 + (i % 3) as u32);
+            }
+        }
+        "len" => s.insert(ID::new(cid(1), 0), n as u32),
+        "clock" => {
+            s.insert(ID::new(cid(1), 0), 1);
+            s.insert(ID::new(cid(1), n as u32), 1);
+        }
+        "client_id" => s.insert(ID::new(cid(n), 3), 2),
+        _ => {
+            for i in 0..n {
+                s.insert(ID::new(cid(1), (3 * i) as u32), 1 + (i % 2) as u32);
+            }
+        }
+    }
+    s
+}
+
+fn run_state_vector(n: u64, opt: &str) -> Result<(), Failure> {
+    at("building a StateVector through FromIterator");
+    let sv = sv_of(n, opt);
+    if opt == "clients" && sv.len() != n as usize {
+        return Err(bad(BUILT, format!("{} clients", n), format!("{}", sv.len())));
+    }
+    round_trip("StateVector", &sv, &show_sv)
+}
+
+fn run_id_set(n: u64, opt: &str) -> Result<(), Failure> {
+    at("building an IdSet through IdSet::insert");
+    let s = set_of(n, opt);
+    let ranges: usize = read_set(&s).iter().map(|(_, r)| r.len()).sum();
+    let want = match opt {
+        "ranges" | "clients" => n as usize,
+        "clock" => if n <= 1 { 1 } else { 2 },
+        _ => 1,
+    };
+    if ranges != want {
+        return Err(bad(BUILT, format!("{} ranges", want), format!("{}", ranges)));
+    }
+    round_trip("IdSet", &s, &show_set)
+}
+
+fn run_snapshot(n: u64, opt: &str) -> Result<(), Failure> {
+    at("building a Snapshot through Snapshot::new");
+    let snap = match opt {
+        "ranges" => Snapshot::new(sv_of(1, "clock"), set_of(n, "ranges")),
+        _ => Snapshot::new(sv_of(n, "clients"), set_of(n, "clients")),
+    };
+    round_trip("Snapshot", &snap, &show_snapshot)
+}
+
+fn aw_of(n: u64, opt: &str) -> AwarenessUpdate {
+    let entry = |clock: u32, json: &str| AwarenessUpdateEntry {
+        clock,
+        json: json.into(),
+    };
+    let mut clients = HashMap::new();
+    match opt {
+        "clients" => {
+            for i in 0..n {
+                clients.insert(cid(i + 1), entry(CLOCKS[(i % 8) as usize], if i % 2 == 0 { "{}" } else { "null" }));
+            }
+        }
+        "clock" => {
+            clients.insert(cid(1), entry(n as u32, "{}"));
+        }
+        "client_id" => {
+            clients.insert(cid(n), entry(1, "{}"));
+        }
+        _ => {
+            // a JSON string literal of n UTF-16 units in total
+            let flavour = opt.strip_prefix("json_").unwrap_or("ascii");
+            let json = format!("\"{}\"", units(n.saturating_sub(2), flavour));
+            clients.insert(cid(1), entry(3, &json));
+            clients.insert(cid(2), entry(4, "null"));
+        }
+    }
+    AwarenessUpdate { clients }
+}
+
+fn run_awareness(n: u64, opt: &str) -> Result<(), Failure> {
+    at("building an AwarenessUpdate");
+    if opt == "via_awareness" {
+        // n remote clients arrive at an Awareness instance; what it reports travels on
+        let mut aw = Awareness::new(new_doc(MAX_CLIENT, false));
+        let incoming = AwarenessUpdate {
+            clients: (0..n)
+                .map(|i| {
+                    (
+                        cid(i + 1),
+                        AwarenessUpdateEntry {
+                            clock: 1 + CLOCKS[(i % 7) as usize],
+                            json: format!("{{\"n\":{}}}", i).as_str().into(),
+                        },
+                    )
+                })
+                .collect(),
+        };
+        at("Awareness::apply_update");
+        aw.apply_update(incoming.clone()).map_err(|e| bad(MISMATCH, "Ok", format!("Err({})", e)))?;
+        at("Awareness::update");
+        let out = aw.update().map_err(|e| bad(MISMATCH, "Ok", format!("Err({})", e)))?;
+        if out != incoming {
+            return Err(bad(MISMATCH, brief(&show_aw(&incoming)), brief(&show_aw(&out))));
+        }
+        return round_trip("AwarenessUpdate", &out, &show_aw);
+    }
+    let u = aw_of(n, opt);
+    round_trip("AwarenessUpdate", &u, &show_aw)
+}
+
+fn run_sticky(n: u64, opt: &str) -> Result<(), Failure> {
+    at("StickyIndex::new");
+    let scope = match opt {
+        "relative_clock" => IndexScope::Relative(ID::new(cid(1), n as u32)),
+        "nested_clock" => IndexScope::Nested(ID::new(cid(1), n as u32)),
+        "relative_client" => IndexScope::Relative(ID::new(cid(n), 1)),
+        "nested_client" => IndexScope::Nested(ID::new(cid(n), 1)),
+        "root_astral" => IndexScope::Root(units(n, "astral_end").as_str().into()),
+        "root_bmp3" => IndexScope::Root(units(n, "bmp3").as_str().into()),
+        _ => IndexScope::Root(units(n, "ascii").as_str().into()),
+    };
+    let show = |x: &StickyIndex| brief(&format!("{:?} {:?}", x.scope(), x.assoc));
+    for assoc in [Assoc::After, Assoc::Before] {
+        round_trip("StickyIndex", &StickyIndex::new(scope.clone(), assoc), &show)?;
+    }
+    Ok(())
+}
+
+fn show_id_map(m: &IdMap<String>) -> String {
+    let mut v: Vec<(u64, u32, u32, Vec<(String, String)>)> = m
+        .iter()
+        .map(|(c, r)| {
+            let mut attrs: Vec<(String, String)> =
+                r.attrs.0.iter().map(|a| (brief(a.name()), brief(a.value()))).collect();
+            attrs.sort();
+            (c.get(), r.range.start, r.range.end, attrs)
+        })
+        .collect();
+    v.sort();
+    format!("{:?}", v)
+}
+
+fn run_id_map(n: u64, opt: &str) -> Result<(), Failure> {
+    at("building an IdMap::<String> through IdMap::insert");
+    let mut m: IdMap<String> = IdMap::new();
+    let shared = ContentAttribute::new("insert", "alice".to_string());
+    match opt {
+        "attrs" => {
+            for i in 0..n {
+                let a = ContentAttribute::new("insert", format!("user{}", i));
+                m.insert(BlockRange::new(ID::new(cid(1), (3 * i) as u32), 1), vec![a]);
+            }
+        }
+        "names" => {
+            for i in 0..n {
+                let a = ContentAttribute::new(format!("name{}", i), "v".to_string());
+                m.insert(BlockRange::new(ID::new(cid(1), (3 * i) as u32), 1), vec![a]);
+            }
+        }
+        "clients" => {
+            for i in 0..n {
+                m.insert(BlockRange::new(ID::new(cid(i + 1), (i % 200) as u32), 2), vec![shared.clone()]);
+            }
+        }
+        "value_len" => {
+            let a = ContentAttribute::new("insert", units(n, "astral_end"));
+            m.insert(BlockRange::new(ID::new(cid(1), 0), 2), vec![a]);
+        }
+        "name_len" => {
+            let a = ContentAttribute::new(units(n, "ascii"), "v".to_string());
+            m.insert(BlockRange::new(ID::new(cid(1), 0), 2), vec![a]);
+        }
+        "on_one_range" => {
+            let attrs = (0..n).map(|i| ContentAttribute::new(format!("name{}", i), format!("v{}", i))).collect();
+            m.insert(BlockRange::new(ID::new(cid(1), 0), 2), attrs);
+        }
+        "range_len" => m.insert(BlockRange::new(ID::new(cid(1), 1), n as u32), vec![shared.clone()]),
+        "clock" => m.insert(BlockRange::new(ID::new(cid(1), n as u32), 1), vec![shared.clone()]),
+        _ => {
+            for i in 0..n {
+                m.insert(BlockRange::new(ID::new(cid(1), (3 * i) as u32), 1), vec![shared.clone()]);
+            }
+        }
+    }
+    round_trip("IdMap::<String>", &m, &show_id_map)
+}
+
+fn run_message(n: u64, opt: &str) -> Result<(), Failure> {
+    at("building a y-sync Message");
+    let bytes = || (0..n).map(|i| (i % 253) as u8).collect::<Vec<u8>>();
+    let msg = match opt {
+        "update" => Message::Sync(SyncMessage::Update(bytes())),
+        "step2" => Message::Sync(SyncMessage::SyncStep2(bytes())),
+        "step1" => Message::Sync(SyncMessage::SyncStep1(sv_of(n, "clients"))),
+        "auth" => Message::Auth(Some(units(n, "ascii"))),
+        "auth_astral" => Message::Auth(Some(units(n, "astral_all"))),
+        "awareness" => Message::Awareness(aw_of(n, "clients")),
+        _ => Message::Custom(77, bytes()),
+    };
+    let show = |m: &Message| brief(&format!("{:?}", m));
+    round_trip("Message", &msg, &show)
+}
+
+fn run_any_value(n: u64, opt: &str) -> Result<(), Failure> {
+    at("building an Any");
+    run_any(&any_of(n, opt))
+}
+
+// ---------------------------------------------------------------------------
+// the enumeration: scenarios x options x sizes around every threshold
+// ---------------------------------------------------------------------------
+
+/// `t - 1 ..= t + 3` for every threshold: a run of `c` equal values is written as `c - 1`
+/// (Rle columns) or `c - 2` (the other columns), and some scenarios add a block of their own.
+fn around(ts: &[u64]) -> Vec<u64> {
+    let mut v = Vec::new();
+    for t in ts {
+        for n in t - 1..=t + 3 {
+            v.push(n);
+        }
+    }
+    v
+}
+
+fn merge(lists: &[Vec<u64>]) -> Vec<u64> {
+    let mut s: BTreeSet<u64> = BTreeSet::new();
+    for l in lists {
+        s.extend(l.iter().copied());
+    }
+    s.into_iter().collect()
+}
+
+/// Numbers of blocks / entries (each costs a block or an allocation).
+fn runs() -> Vec<u64> {
+    merge(&[runs_tiny(), around(&[16384])])
+}
+/// `t - 1 ..= t + 6` around the small thresholds (cheap; some columns lag a few blocks behind `n`).
+fn runs_tiny() -> Vec<u64> {
+    let mut v = Vec::new();
+    for t in [32u64, 64, 128, 256] {
+        v.extend(t - 1..=t + 6);
+    }
+    v
+}
+/// The small sizes and the given ones around 2^14: a document of 16 384 blocks costs about a
+/// second, so every scenario gets the sizes at which ITS columns cross (see `scale-cover`).
+fn runs_with(big: &[u64]) -> Vec<u64> {
+    merge(&[runs_tiny(), big.to_vec()])
+}
+/// Lengths that cost a byte each but are used five times over.
+fn mags_mid() -> Vec<u64> {
+    merge(&[around(&[32, 64, 128, 256, 4096, 8192, 16384]), vec![65535, 65536, 65537]])
+}
+fn runs_small() -> Vec<u64> {
+    merge(&[around(&[32, 64, 128, 256]), vec![1023, 1024, 1025]])
+}
+/// Lengths and other magnitudes that cost a byte each.
+fn mags() -> Vec<u64> {
+    around(&[32, 64, 128, 256, 4096, 8192, 16384, 65536])
+}
+fn mags_big() -> Vec<u64> {
+    merge(&[mags(), vec![(1 << 20) - 1, 1 << 20, (1 << 20) + 1, (1 << 21) - 1, 1 << 21, (1 << 21) + 1, (1 << 21) + 2]])
+}
+/// Clocks and lengths that cost nothing.
+fn clocks() -> Vec<u64> {
+    let top = 1u64 << 32;
+    merge(&[
+        mags(),
+        around(&[1 << 19, 1 << 20, 1 << 21, 1 << 27, 1 << 28, 1 << 29, 1 << 30, 1 << 31]),
+        (top - 9..=top - 4).collect(),
+    ])
+}
+fn client_ids() -> Vec<u64> {
+    merge(&[
+        around(&[1 << 6, 1 << 7, 1 << 13, 1 << 14, 1 << 20, 1 << 21, 1 << 27, 1 << 28, 1 << 32, 1 << 35, 1 << 42, 1 << 49]),
+        vec![MAX_CLIENT - 2, MAX_CLIENT - 1, MAX_CLIENT],
+    ])
+}
+fn ints() -> Vec<u64> {
+    let mut v = Vec::new();
+    for k in 5..=53u32 {
+        v.extend([(1u64 << k) - 1, 1u64 << k, (1u64 << k) + 1]);
+    }
+    v
+}
+fn depths() -> Vec<u64> {
+    // `Any::decode` accepts a leaf below at most 512 containers
+    vec![1, 2, 63, 64, 65, 127, 128, 129, 255, 256, 257, 510, 511, 512]
+}
+
+struct Scn {
+    name: &'static str,
+    /// `variant` of the witness line.
+    group: &'static str,
+    opts: &'static [&'static str],
+    sizes: fn(&str) -> Vec<u64>,
+    /// Largest `n` a recipe may ask for.
+    limit: u64,
+    run: fn(u64, &str) -> Result<(), Failure>,
+}
+
+macro_rules! doc {
+    ($f:ident) => {
+        |n, opt| check_built(&$f(n, opt))
+    };
+}
+
+const U32_TOP: u64 = (1 << 32) - 4;
+
+static SCENARIOS: &[Scn] = &[
+    Scn {
+        name: "map_keys",
+        group: "update",
+        opts: &["plain", "eqlen", "gc"],
+        sizes: |o| match o {
+            "plain" => runs_with(&[16383, 16384, 16385]),
+            "eqlen" => runs_with(&[16385]),
+            _ => runs_tiny(),
+        },
+        limit: 1 << 18,
+        run: doc!(s_map_keys),
+    },
+    // (`keep`: squashing the overwritten entries is quadratic)
+    Scn {
+        name: "map_same_key",
+        group: "update",
+        opts: &["keep", "gc"],
+        sizes: |o| if o == "gc" { mags() } else { around(&[32, 64, 128, 256, 4096]) },
+        limit: 1 << 17,
+        run: doc!(s_map_same_key),
+    },
+    Scn {
+        name: "map_pingpong",
+        group: "update",
+        opts: &["small", "small_gc", "u32", "u53"],
+        sizes: |o| match o {
+            "small" => runs_with(&[16385, 16386, 16387]),
+            "u32" => merge(&[around(&[64, 128]), vec![16386]]),
+            _ => around(&[64, 128]),
+        },
+        limit: 1 << 16,
+        run: doc!(s_map_pingpong),
+    },
+    Scn {
+        name: "push_front",
+        group: "update",
+        opts: &["any", "str"],
+        sizes: |o| if o == "any" { runs_with(&[16385, 16386, 16387, 16388, 16389]) } else { runs_with(&[16384, 16385, 16386]) },
+        limit: 1 << 18,
+        run: doc!(s_push_front),
+    },
+    Scn { name: "insert_at_1", group: "update", opts: &[""], sizes: |_| runs_with(&[16386]), limit: 1 << 18, run: doc!(s_insert_at_1) },
+    Scn { name: "array_block", group: "update", opts: &[""], sizes: |_| mags(), limit: 1 << 22, run: doc!(s_array_block) },
+    Scn {
+        name: "text_insert",
+        group: "update",
+        opts: &["ascii", "astral_end", "astral_start", "astral_all", "bmp2", "bmp3"],
+        // (2^20 and 2^21 units: `sticky_index root_ascii`, `awareness json_ascii` reach the v2 string column cheaper)
+        sizes: |_| mags(),
+        limit: 1 << 23,
+        run: doc!(s_text_insert),
+    },
+    // (cutting the long block of client 1 again and again is quadratic: small sizes; `map_desc` goes on)
+    Scn { name: "text_desc", group: "update", opts: &["full", "diff"], sizes: |_| runs_small(), limit: 1 << 14, run: doc!(s_text_desc) },
+    Scn { name: "map_desc", group: "update", opts: &[""], sizes: |_| runs_with(&[16385, 16386, 16387]), limit: 1 << 18, run: doc!(s_map_desc) },
+    Scn { name: "text_steps", group: "update", opts: &["asc", "desc"], sizes: |_| mags_mid(), limit: 1 << 20, run: doc!(s_text_steps) },
+    Scn {
+        name: "nested",
+        group: "update",
+        opts: &["map", "array", "text", "one_map"],
+        sizes: |o| match o {
+            "map" => runs_with(&[16385, 16386, 16387]),
+            "one_map" => runs_with(&[16384, 16385]),
+            _ => around(&[64, 128]),
+        },
+        limit: 1 << 18,
+        run: doc!(s_nested),
+    },
+    Scn {
+        name: "xml",
+        group: "update",
+        opts: &["same", "distinct", "long"],
+        sizes: |o| match o {
+            "long" => mags(),
+            "same" => runs_with(&[16386, 16387, 16388]),
+            _ => runs_with(&[16384]),
+        },
+        limit: 1 << 18,
+        run: doc!(s_xml),
+    },
+    Scn {
+        name: "formats",
+        group: "update",
+        opts: &["same", "distinct", "long"],
+        // (every `format` call walks the formatting items in front of the character: quadratic)
+        sizes: |o| match o {
+            "long" => mags(),
+            "same" => runs_small(),
+            _ => runs_tiny(),
+        },
+        limit: 1 << 17,
+        run: doc!(s_formats),
+    },
+    Scn {
+        name: "delete_ranges",
+        group: "update",
+        opts: &["keep", "gc", "text"],
+        sizes: |o| match o {
+            "text" => runs_small(),
+            "keep" => runs_with(&[16384]),
+            _ => runs_tiny(),
+        },
+        limit: 1 << 17,
+        run: doc!(s_delete_ranges),
+    },
+    Scn {
+        name: "delete_big",
+        group: "update",
+        opts: &["text_keep", "text_gc", "array_gc", "nested_gc"],
+        sizes: |_| mags(),
+        limit: 1 << 23,
+        run: doc!(s_delete_big),
+    },
+    Scn {
+        name: "many_clients",
+        group: "update",
+        opts: &["distinct", "same"],
+        // (`same`: resolving n concurrent writes of one key is quadratic)
+        sizes: |o| if o == "distinct" { runs_with(&[16384]) } else { runs_tiny() },
+        limit: 1 << 15,
+        run: doc!(s_many_clients),
+    },
+    Scn { name: "root_name", group: "update", opts: &["ascii", "astral_end"], sizes: |_| mags(), limit: 1 << 22, run: doc!(s_root_name) },
+    Scn { name: "diff_offset", group: "update", opts: &["ascii", "astral"], sizes: |_| mags(), limit: 1 << 22, run: doc!(s_diff_offset) },
+    Scn {
+        name: "doc_any",
+        group: "update",
+        opts: &["array", "map", "string_ascii", "string_astral_end", "buffer", "binary", "key_len", "embed_string_ascii", "embed_array"],
+        sizes: |o| match o {
+            "array" | "embed_array" => runs(),
+            "map" => runs_with(&[16384]),
+            _ => mags_mid(),
+        },
+        limit: 1 << 22,
+        run: doc!(s_doc_any),
+    },
+    Scn { name: "doc_any_depth", group: "update", opts: &["depth_array", "depth_map", "depth_mixed"], sizes: |_| depths(), limit: 512, run: doc!(s_doc_any) },
+    Scn { name: "skip_block", group: "update", opts: &[""], sizes: |_| mags_mid(), limit: 1 << 23, run: run_skip },
+    Scn {
+        name: "raw_clock",
+        group: "update",
+        opts: &["gc_item", "skip_item", "left_origin", "right_origin", "start_clock", "delete_set"],
+        sizes: |_| clocks(),
+        limit: U32_TOP,
+        run: run_raw_clock,
+    },
+    Scn {
+        name: "any",
+        group: "any",
+        opts: &["array", "map", "buffer", "key_len", "string_ascii", "string_astral_end", "string_astral_start", "string_astral_all", "string_bmp2", "string_bmp3"],
+        sizes: |o| match o {
+            "buffer" | "string_ascii" | "string_astral_end" => mags_big(),
+            "array" | "map" => runs(),
+            _ => mags(),
+        },
+        limit: 1 << 23,
+        run: run_any_value,
+    },
+    Scn { name: "any_depth", group: "any", opts: &["depth_array", "depth_map", "depth_mixed"], sizes: |_| depths(), limit: 512, run: run_any_value },
+    Scn { name: "any_int", group: "any", opts: &["int_pos", "int_neg"], sizes: |_| ints(), limit: 1 << 62, run: run_any_value },
+    Scn {
+        name: "state_vector",
+        group: "state_vector",
+        opts: &["clients", "clock", "client_id"],
+        sizes: |o| match o {
+            "clients" => merge(&[runs(), vec![65535, 65536, 65537]]),
+            "clock" => clocks(),
+            _ => client_ids(),
+        },
+        limit: MAX_CLIENT,
+        run: run_state_vector,
+    },
+    Scn {
+        name: "id_set",
+        group: "id_set",
+        opts: &["ranges", "clients", "len", "clock", "client_id"],
+        sizes: |o| match o {
+            "ranges" | "clients" => runs(),
+            "client_id" => client_ids(),
+            _ => clocks(),
+        },
+        limit: MAX_CLIENT,
+        run: run_id_set,
+    },
+    Scn { name: "snapshot", group: "snapshot", opts: &["ranges", "clients"], sizes: |_| runs(), limit: 1 << 22, run: run_snapshot },
+    Scn {
+        name: "awareness",
+        group: "awareness",
+        opts: &["clients", "via_awareness", "clock", "client_id", "json_ascii", "json_astral_end", "json_astral_all", "json_bmp3"],
+        sizes: |o| match o {
+            "clients" => runs(),
+            "via_awareness" => runs_with(&[16383, 16384, 16385]),
+            "clock" => clocks(),
+            "client_id" => client_ids(),
+            "json_ascii" => mags_big(),
+            _ => mags(),
+        },
+        limit: MAX_CLIENT,
+        run: run_awareness,
+    },
+    Scn {
+        name: "sticky_index",
+        group: "sticky_index",
+        opts: &["relative_clock", "nested_clock", "relative_client", "nested_client", "root_ascii", "root_astral", "root_bmp3"],
+        sizes: |o| match o {
+            "relative_clock" | "nested_clock" => clocks(),
+            "relative_client" | "nested_client" => client_ids(),
+            "root_ascii" => mags_big(),
+            _ => mags(),
+        },
+        limit: MAX_CLIENT,
+        run: run_sticky,
+    },
+    Scn {
+        name: "id_map",
+        group: "id_map",
+        opts: &["ranges", "attrs", "names", "clients", "on_one_range", "value_len", "name_len", "range_len", "clock"],
+        sizes: |o| match o {
+            "range_len" | "clock" => clocks(),
+            "value_len" | "name_len" => mags(),
+            // (n attributes on one range: quadratic)
+            "on_one_range" => runs_small(),
+            _ => runs(),
+        },
+        limit: U32_TOP,
+        run: run_id_map,
+    },
+    Scn {
+        name: "message",
+        group: "message",
+        opts: &["update", "step2", "step1", "auth", "auth_astral", "awareness", "custom"],
+        sizes: |o| match o {
+            "update" | "custom" => mags_big(),
+            "awareness" | "step1" => runs(),
+            _ => mags(),
+        },
+        limit: 1 << 23,
+        run: run_message,
+    },
+];
+
+fn scenario(name: &str) -> Option<&'static Scn> {
+    SCENARIOS.iter().find(|s| s.name == name)
+}
+
+/// Recipes that disagree with the oracle on the tree the list was recorded on (explicit
+/// listing, see the file): `search` leaves them out, `replay` still runs them.
+const KNOWN: &str = include_str!("../baseline/scale_known.txt");
+
+/// `scenario opt lo hi` per line.
+fn known() -> Vec<(String, String, u64, u64)> {
+    KNOWN
+        .lines()
+        .map(|l| l.trim())
+        .filter(|l| !l.is_empty() && !l.starts_with('#'))
+        .filter_map(|l| {
+            let f: Vec<&str> = l.split_whitespace().collect();
+            if f.len() != 4 {
+                return None;
+            }
+            Some((f[0].to_string(), f[1].to_string(), f[2].parse().ok()?, f[3].parse().ok()?))
+        })
+        .collect()
+}
+
+#[derive(Clone, Debug)]
+pub struct ScaleCase {
+    pub scenario: String,
+    pub n: u64,
+    pub opt: String,
+}
+
+impl ScaleCase {
+    pub fn describe(&self) -> (String, J) {
+        let group = scenario(&self.scenario).map(|s| s.group).unwrap_or("");
+        (
+            group.to_string(),
+            J::obj(vec![
+                ("kind", J::str("scale")),
+                ("scenario", J::str(&self.scenario)),
+                ("n", J::Num(self.n as i64)),
+                ("opt", J::str(&self.opt)),
+            ]),
+        )
+    }
+
+    pub fn from_json(op: &J) -> Result<ScaleCase, String> {
+        let name = op.get("scenario").and_then(|s| s.as_str()).ok_or("op.scenario missing")?;
+        let scn = scenario(name).ok_or_else(|| {
+            format!(
+                "unknown scenario {:?}; scenarios: {}",
+                name,
+                SCENARIOS.iter().map(|s| s.name).collect::<Vec<_>>().join(" ")
+            )
+        })?;
+        let n = op.get("n").and_then(|n| n.as_i64()).ok_or("op.n missing")?;
+        if n < 0 || n as u64 > scn.limit {
+            return Err(format!("op.n out of range for {} (0..={})", name, scn.limit));
+        }
+        let opt = op.get("opt").and_then(|s| s.as_str()).unwrap_or("");
+        if !scn.opts.contains(&opt) {
+            return Err(format!("unknown op.opt {:?} for {}; options: {:?}", opt, name, scn.opts));
+        }
+        Ok(ScaleCase {
+            scenario: name.to_string(),
+            n: n as u64,
+            opt: opt.to_string(),
+        })
+    }
+
+    /// Runs on a thread of its own (large stack); a panic of the code under test is a disagreement.
+    pub fn run(&self) -> Result<(), Failure> {
+        let scn = match scenario(&self.scenario) {
+            Some(s) => s,
+            None => return Ok(()),
+        };
+        let (n, opt) = (self.n, self.opt.clone());
+        let guarded = move || -> Result<(), Failure> {
+            at("");
+            match catch_unwind(AssertUnwindSafe(|| (scn.run)(n, &opt))) {
+                Ok(r) => r,
+                Err(payload) => {
+                    let msg = if let Some(s) = payload.downcast_ref::<&str>() {
+                        s.to_string()
+                    } else if let Some(s) = payload.downcast_ref::<String>() {
+                        s.clone()
+                    } else {
+                        "non-string panic payload".to_string()
+                    };
+                    Err(Failure {
+                        why: format!("panic: {}", msg),
+                        expected: J::str("no panic"),
+                        actual: J::Null,
+                        api: current_api(),
+                    })
+                }
+            }
+        };
+        let cover = COVER.with(|c| c.borrow_mut().take());
+        let spawned = std::thread::Builder::new().stack_size(STACK).spawn(move || {
+            COVER.with(|c| *c.borrow_mut() = cover);
+            let r = guarded();
+            (r, COVER.with(|c| c.borrow_mut().take()))
+        });
+        match spawned {
+            Ok(handle) => match handle.join() {
+                Ok((r, cover)) => {
+                    COVER.with(|c| *c.borrow_mut() = cover);
+                    r
+                }
+                Err(_) => Err(Failure {
+                    why: "panic: the thread of the case died".to_string(),
+                    expected: J::str("no panic"),
+                    actual: J::Null,
+                    api: String::new(),
+                }),
+            },
+            // no thread to be had (a limit of the machine, nothing about the code under test):
+            // run the case where we are
+            Err(_) => {
+                let (n, opt) = (self.n, self.opt.clone());
+                at("");
+                (scn.run)(n, &opt)
+            }
+        }
+    }
+
+    pub fn actual_json(&self) -> J {
+        J::str("every round trip returns an equal value; the receivers of the v1 and the v2 form agree")
+    }
+}
+
+/// Every case, smallest `n` first (so that the first witness is the smallest one).
+pub fn enumerate() -> Vec<ScaleCase> {
+    let known = known();
+    let mut all: Vec<(u64, usize, usize, ScaleCase)> = Vec::new();
+    for (si, s) in SCENARIOS.iter().enumerate() {
+        for (oi, opt) in s.opts.iter().enumerate() {
+            for n in (s.sizes)(opt) {
+                if n > s.limit {
+                    continue;
+                }
+                if known.iter().any(|(k, o, lo, hi)| k == s.name && (o == opt || o == "*") && *lo <= n && n <= *hi) {
+                    continue;
+                }
+                all.push((
+                    n,
+                    si,
+                    oi,
+                    ScaleCase {
+                        scenario: s.name.to_string(),
+                        n,
+                        opt: opt.to_string(),
+                    },
+                ));
+            }
+        }
+    }
+    all.sort_by_key(|(n, si, oi, _)| (*n, *si, *oi));
+    all.into_iter().map(|(_, _, _, c)| c).collect()
+}
+
+/// `VX_SCALE_TIMES=1`: milliseconds per scenario on stderr at the end of a search.
+static TIMES: std::sync::Mutex<Vec<(String, u128, u64)>> = std::sync::Mutex::new(Vec::new());
+
+fn note_time(scenario: &str, opt: &str, ms: u128) {
+    if std::env::var_os("VX_SCALE_TIMES").is_none() {
+        return;
+    }
+    let key = format!("{} {}", scenario, opt);
+    let mut t = TIMES.lock().unwrap();
+    match t.iter_mut().find(|(k, _, _)| *k == key) {
+        Some(e) => {
+            e.1 += ms;
+            e.2 += 1;
+        }
+        None => t.push((key, ms, 1)),
+    }
+}
+
+/// The cases up to `n = 300` only (part of the target `codecs`: about a second).
+pub fn search_scale_small(r: &mut Runner) -> Result<(), XStop> {
+    search_tiers(r, &[SMALL_TIER])
+}
+
+const SMALL_TIER: u64 = 300;
+
+pub fn search_scale(r: &mut Runner) -> Result<(), XStop> {
+    let res = search_tiers(r, &[SMALL_TIER, 20_000, u64::MAX]);
+    if std::env::var_os("VX_SCALE_TIMES").is_some() {
+        let mut t = TIMES.lock().unwrap().clone();
+        t.sort_by_key(|(_, ms, _)| std::cmp::Reverse(*ms));
+        let total: u128 = t.iter().map(|(_, ms, _)| *ms).sum();
+        for (k, ms, n) in t {
+            eprintln!("{:8} ms {:5} cases  {}", ms, n, k);
+        }
+        eprintln!("{:8} ms in total", total);
+    }
+    res
+}
+
+fn search_tiers(r: &mut Runner, bounds: &[u64]) -> Result<(), XStop> {
+    let cases = enumerate();
+    // tiers of growing cost: a disagreement at a small size is reported before the large sizes run
+    let mut start = 0;
+    for bound in bounds {
+        let end = cases.iter().position(|c| c.n > *bound).unwrap_or(cases.len());
+        let tier = &cases[start..end];
+        start = end;
+        if tier.is_empty() {
+            continue;
+        }
+        let deadline = r.deadline;
+        r.par(tier.len(), &|ctx: &mut Ctx, i: usize| {
+            if let Some(d) = deadline {
+                if Instant::now() >= d {
+                    return Err(XStop::Timeout);
+                }
+            }
+            let t = Instant::now();
+            let res = ctx.exec(XCase::Scale(tier[i].clone())).map(|_| ());
+            note_time(&tier[i].scenario, &tier[i].opt, t.elapsed().as_millis());
+            res
+        })?;
+    }
+    Ok(())
+}
+
+/// Hidden subcommand `scale-cover [scenario]`: runs the enumeration sequentially and prints,
+/// per v2 column, which coded run counts and magnitudes around the thresholds occurred.
+pub fn cmd_cover(args: &[String]) -> i32 {
+    COVER.with(|c| *c.borrow_mut() = Some(Cover::default()));
+    let only = args.first().cloned();
+    let mut failures = 0;
+    for case in enumerate() {
+        if let Some(o) = &only {
+            if case.scenario != *o {
+                continue;
+            }
+        }
+        if case.n > 70_000 {
+            continue;
+        }
+        let t = Instant::now();
+        // VX_SCALE_COVER_CASES=1: the run counts of every single case (fresh statistics per case)
+        let per_case = std::env::var_os("VX_SCALE_COVER_CASES").is_some();
+        let saved = if per_case { COVER.with(|c| c.borrow_mut().replace(Cover::default())) } else { None };
+        let res = case.run();
+        if per_case {
+            let mine = COVER.with(|c| c.borrow_mut().take()).unwrap_or_default();
+            let mut line = Vec::new();
+            for col in COLUMNS {
+                if let Some(set) = mine.counts.get(col) {
+                    let big: Vec<String> = set.iter().filter(|v| **v >= 20).map(|v| v.to_string()).collect();
+                    if !big.is_empty() {
+                        line.push(format!("{}:{}", col, big.join(",")));
+                    }
+                }
+            }
+            println!("case {} {} {}: {}", case.scenario, case.opt, case.n, line.join(" "));
+            let mut merged = saved.unwrap_or_default();
+            for (k, v) in mine.counts {
+                merged.counts.entry(k).or_default().extend(v);
+            }
+            for (k, v) in mine.values {
+                merged.values.entry(k).or_default().extend(v);
+            }
+            COVER.with(|c| *c.borrow_mut() = Some(merged));
+        }
+        if let Err(f) = res {
+            failures += 1;
+            println!("FAIL {} {} {}: {} [{}]", case.scenario, case.opt, case.n, f.why, f.api);
+        }
+        let ms = t.elapsed().as_millis();
+        if ms > 400 {
+            println!("slow {} {} {}: {} ms", case.scenario, case.opt, case.n, ms);
+        }
+    }
+    let cover = COVER.with(|c| c.borrow_mut().take()).unwrap_or_default();
+    let near = |set: &BTreeSet<u64>, ts: &[u64]| -> String {
+        ts.iter()
+            .map(|t| {
+                let hit: Vec<String> = (t - 1..=t + 1).map(|v| if set.contains(&v) { v.to_string() } else { "-".to_string() }).collect();
+                format!("[{}]", hit.join(" "))
+            })
+            .collect::<Vec<_>>()
+            .join(" ")
+    };
+    for col in COLUMNS {
+        let empty = BTreeSet::new();
+        let counts = cover.counts.get(col).unwrap_or(&empty);
+        let values = cover.values.get(col).unwrap_or(&empty);
+        println!(
+            "{:12} coded counts near 64/128/16384: {}   max {:?}",
+            col,
+            near(counts, &[64, 128, 16384]),
+            counts.iter().next_back()
+        );
+        println!(
+            "{:12} coded values near 64/128/8192/16384/2^20: {}   max {:?}",
+            "",
+            near(values, &[64, 128, 8192, 16384, 1 << 20]),
+            values.iter().next_back()
+        );
+    }
+    println!("failures: {}", failures);
+    if failures > 0 {
+        1
+    } else {
+        0
+    }
 }
